@@ -61,6 +61,10 @@ if ok:
         print("patch does not apply to /repo's working tree:", out[-300:])
     else:
         meta["applies_to_repo"] = True
+        import fcntl
+        _lock = open("/tmp/verif-repo.lock", "w")
+        fcntl.flock(_lock, fcntl.LOCK_EX)   # ordinary ./check runs hold it shared while they read /repo
+        env["VERIF_REPO_LOCKED"] = "1"
         sh("git apply " + patch, "/repo")
         try:
             for cid in checks:
@@ -77,6 +81,7 @@ if ok:
                 print("check %s: rc=%d %s" % (cid, rc, viol[:1]))
         finally:
             sh("git apply -R " + patch, "/repo")
+            fcntl.flock(_lock, fcntl.LOCK_UN)
 meta["checks"] = detected
 out = os.path.join("/verif/seeded", name)
 os.makedirs(out, exist_ok=True)
